@@ -197,6 +197,8 @@ pub fn eval(case: &Case) -> Out {
         twin_conn.steps.drain(..from);
         twin_conn.connect.io = IoCfg::default();
         twin_conn.connect.handshake = Handshake::Accept;
+        // the same CONNACK: a planned smaller Maximum Packet Size may have been withheld
+        twin_conn.connect.props.max_packet = trace.announced_max_packet(fin_tr);
         let twin_case = Case { cfg: case.cfg.clone(), broker: BrokerMode::Scripted, conns: vec![twin_conn] };
         let twin = run_case(&twin_case);
         if twin.conns.first().is_some_and(|c| c.1.is_ok()) {
